@@ -277,6 +277,27 @@ example :
     = { cl := [some ⟨0, 1, true, true⟩], cn := [⟨some (1, true), true, false, false⟩], la := [0],
         count := 1, total := 1, control := 1, tunnel := 0, active := 1 } := by decide
 
+/-- non-vacuity for `Register` at the limit with a registered, non-oldest connection id: ONE call displaces two
+connections — the oldest (limit eviction) and the previous object of the id (replacement); `C07_main`'s clause
+"every evicted connection has its transport closed" covers both: here connections 0 and 1 are closed … -/
+example :
+    obsOf (run .repaired (init 3 2)
+      [.accept 0, .accept 1, .hsAuth 0 1 true, .hsFin 0, .hsAuth 1 2 true, .hsFin 1, .reg 1 0]) 2
+    = { cl := [none, none],
+        cn := [⟨none, true, false, true⟩, ⟨some (0, false), true, false, true⟩, ⟨none, false, false, false⟩],
+        la := [], count := 1, total := 2, control := 1, tunnel := 0, active := 1 } := by decide
+
+/-- … and the predicate rejects the observation in which the evicted oldest connection's transport stayed open. -/
+example :
+    holds 3 2 2 [.accept 0, .accept 1, .hsAuth 0 1 true, .hsFin 0, .hsAuth 1 2 true, .hsFin 1, .reg 1 0] true
+      { cl := [none, none],
+        cn := [⟨none, true, false, false⟩, ⟨some (0, false), true, false, true⟩, ⟨none, false, false, false⟩],
+        la := [], count := 1, total := 2, control := 1, tunnel := 0, active := 1 } = false := by decide
+
+/-- the pre-authenticated temporary control connection (`Register` of an authenticated object: the index is written) -/
+example :
+    (obsOf (run .repaired (init 2 0) [.accept 0, .reg 0 2]) 2).cl = [none, some ⟨0, 2, true, true⟩] := by decide
+
 /-! ## Non-vacuity and recorded findings -/
 
 /-- a non-trivial history: duplicate login evicts the older connection, re-login under another id,
